@@ -34,6 +34,8 @@ ops (every op prints exactly one line):
   `bstore <nonce>`                                   → `<val/creator+…>` | `-`   records of the keyed confirmation store under the batch
   `blocks <n>`                                       → `panic` | `<item> <item> …` | `-`   n blocks pass without a submission (`idleBlocks`)
   `fee <m> <c> <s> <g>`                              → `<r> <c> <s>` | `panic`
+  `relayf <val>`                                     → `<id>/<elected>/<r>.<c>.<s>,…` | `-`   what each message offered to `<val>` carries
+                                                       (`offeredCarrying`: elected gas estimate, fees or `-`)
   `q <op …>`                                         → first word of the op's answer
 `ref` says which bytes were signed: `c` the item's current ones, `o<k>` the k-th distinct byte string
 the item ever had (0-based, in order of first appearance), `g` unrelated bytes.
@@ -362,6 +364,15 @@ def stepRaw (d : DState) (args : List String) : DState × String :=
       else
         let s' := idleBlocks d.s n
         ({ d with s := s' }, join " " (s'.queue.map showItem))
+    | none => (d, "bad-op")
+  | ["relayf", v] =>
+    match parseNat? v with
+    | some v =>
+      (d, join "," ((offeredCarrying d.s.queue v).map fun e =>
+        let fees := match e.2.2 with
+          | none => "-"
+          | some f => s!"{f.1}.{f.2.1}.{f.2.2}"
+        s!"{e.1}/{e.2.1}/{fees}"))
     | none => (d, "bad-op")
   | ["fee", m, c, s, g] =>
     match parseInt? m, parseInt? c, parseInt? s, parseNat? g with
